@@ -301,7 +301,16 @@ func ruleMathMap(c *Ctx) {
 			okRes = stripConv(stripMI(pushes[0].Call.Args[1])) == ssa.Value(call)
 		} else {
 			for i, pu := range pushes {
-				ex, ok := stripConv(stripMI(pu.Call.Args[1])).(*ssa.Extract)
+				v := stripConv(stripMI(pu.Call.Args[1]))
+				// the result, or a phi that replaces it by a special value on some path (modf of an infinity)
+				if ph, isPhi := v.(*ssa.Phi); isPhi {
+					for _, e := range ph.Edges {
+						if ex, ok := stripConv(e).(*ssa.Extract); ok && ex.Tuple == ssa.Value(call) {
+							v = ex
+						}
+					}
+				}
+				ex, ok := v.(*ssa.Extract)
 				if !ok || ex.Tuple != ssa.Value(call) || ex.Index != i {
 					okRes = false
 				}
